@@ -188,3 +188,25 @@ def check(verif, repo, prop_id, mod, build):
             seen.add(n)
             uniq.append((n, d))
     return uniq, stats
+
+
+def changed(verif, repo, prop_id, mod):
+    """statements of the anchored files whose normalised text is not in the pin of their function (static; no run needed)"""
+    pp = pin_path(verif, prop_id)
+    if not os.path.exists(pp):
+        return []
+    pin = json.load(open(pp))
+    out = []
+    for f, pinned in pin.items():
+        path = os.path.join(repo, f)
+        try:
+            cur = statements(open(path).read())
+        except Exception:
+            out.append(f'{f}: unreadable')
+            continue
+        for q, sts in cur.items():
+            known = set(pinned.get(q, []))
+            for t, a, b in sts:
+                if t not in known:
+                    out.append(f'{f}:{q}: {t[:100]}')
+    return out
